@@ -609,8 +609,9 @@ func (r *runner) run(in *CaseIn, stream string) {
 // spellings of `from`, relative to a scratch directory that holds d/s/file and d/s/sub/g (d/s a directory)
 var spellings = []string{"d/s", "d//s", "d/./s", "d/s/", "./d/s", "d/x/../s", "d/s/.", "d//s/file", "d/./s/file", "d/s/file"}
 
-// spelling runs RecursiveCopy / RecursiveLink with `from` = <scratch>/<spelling> exactly as spelled.  The panic of
-// `name[len(from):]` is recovered and reported: a panic neither reproduces the tree nor is it an error return.
+// spelling runs RecursiveCopy / RecursiveLink with `from` = <scratch>/<spelling> exactly as spelled.  A panic of
+// `name[len(from):]` (finding unclean-from-directory-panics, fixed in /repo by cleaning `from` first) is recovered and
+// reported: a panic neither reproduces the tree nor is it an error return.
 func (r *runner) spelling(in *CaseIn) {
 	c := r.c
 	r.n++
@@ -652,13 +653,20 @@ func (r *runner) spelling(in *CaseIn) {
 	case callErr != nil:
 		c.Fail("unclean-from-error", fmt.Sprintf("%s(from = \"<dir>/%s\", ...) failed: %v", in.Via, in.Spelling, callErr), in)
 	default:
-		want := "x"
-		got, err := os.ReadFile(filepath.Join(to, "file"))
-		if !isDir {
-			got, err = os.ReadFile(to)
+		// the copy of an unclean path is the copy of its Clean form: exactly d/s (file, sub/g) resp. the one file
+		want := map[string]string{"": "x"}
+		if isDir {
+			want = map[string]string{"/file": "x", "/sub/g": "g"}
 		}
-		if err != nil || string(got) != want {
-			c.Fail("unclean-from-wrong-copy", fmt.Sprintf("%s(from = \"<dir>/%s\", ...) returned nil but the destination does not hold the file: %v %q", in.Via, in.Spelling, err, got), in)
+		for rel, data := range want {
+			if got, err := os.ReadFile(to + rel); err != nil || string(got) != data {
+				c.Fail("unclean-from-wrong-copy", fmt.Sprintf("%s(from = \"<dir>/%s\", ...) returned nil but the destination does not hold %q at dst%s: %v %q", in.Via, in.Spelling, data, rel, err, got), in)
+			}
+		}
+		n := 0
+		filepath.Walk(to, func(string, os.FileInfo, error) error { n++; return nil })
+		if (isDir && n != 4) || (!isDir && n != 1) {
+			c.Fail("unclean-from-wrong-copy", fmt.Sprintf("%s(from = \"<dir>/%s\", ...) left %d entries at the destination", in.Via, in.Spelling, n), in)
 		}
 	}
 	c.Hist("stream", "from-spelling")
@@ -1000,7 +1008,7 @@ func main() {
 			r.cases(t, nil, []config{k}, "random")
 		}
 
-		// --- 6. how `from` is spelled (finding unclean-from-directory-panics)
+		// --- 6. how `from` is spelled (adversarial: the fixed finding unclean-from-directory-panics must not return)
 		for _, sp := range spellings {
 			for _, via := range []string{"RecursiveCopy", "RecursiveLink"} {
 				r.spelling(&CaseIn{Spelling: sp, Via: via})
